@@ -2,7 +2,7 @@
 from __future__ import annotations
 
 import ast
-from typing import Any, Dict, List, Optional, Sequence, Tuple
+from typing import Any, Dict, List, Optional, Sequence, Set, Tuple
 
 from ..engine.effects import collect_mutations
 from ..engine.match import Spec, find_guard, loop_doms, require_call, require_guard, residual
@@ -20,6 +20,23 @@ def short(q: str) -> str:
 
 
 # --------------------------------------------------------------------------- seen-set idiom
+def only_called_from(ck: Check, fn: str, allowed: Set[str], depth: int) -> bool:
+    """fn is a helper introduced after the rule tables were written and every (name-matched) call site of it lies in an allowed
+    function or in another such helper: its events and values are analysed as part of those callers."""
+    if depth > 4 or not ck.walker.transparent(fn):
+        return False
+    name = fn.split(".")[-1]
+    callers = set()
+    for fi in ck.repo.all_functions():
+        if fi.qualname == fn:
+            continue
+        for n in ast.walk(fi.node):
+            if isinstance(n, ast.Call) and ((isinstance(n.func, ast.Attribute) and n.func.attr == name)
+                                            or (isinstance(n.func, ast.Name) and n.func.id == name)):
+                callers.add(fi.qualname)
+    return bool(callers) and all(c in allowed or only_called_from(ck, c, allowed, depth + 1) for c in callers)
+
+
 def functions_mentioning(ck: Check, needle: str) -> List[FuncInfo]:
     """recorded (non-transparent) functions whose source mentions `needle`, directly or through the name of a helper that was
     introduced after the rule tables were written (such helpers are analysed as part of their callers, never on their own)."""
